@@ -888,7 +888,7 @@ impl<T: Send> Stream for AsyncReceiver<T> {
       return Poll::Ready(None);
     }
 
-    let state_ptr = &this.state as *const AtomicU8;
+    let state_ptr = &*this.state as *const AtomicU8;
     // still queued only if an earlier poll parked us and no notifier has popped the record since
     let maybe_linked = this.is_registered && (this.state.load(Ordering::SeqCst) & 0x01) == 0;
     this.is_registered = true;
